@@ -142,6 +142,54 @@ def run_c05(tier, seed, res):
     }
 
 
+
+# ------------------------------------------------------------------ C07
+def run_c07(tier, seed, res):
+    E.run_workload(res, "mon", "C07", sz(tier, 400, 12000), tier, seed, per_case_timeout=5.0)
+    return {
+        "rule": "case = one serialised model (generated via the mirror; case 0 = resources/model.bin): to_vec / write / short-write writer give "
+                "identical bytes; read / read_slice / 1..3-byte short reads with Interrupted re-serialise identically and predict like the "
+                "reference; read_slice returns exactly the appended bytes; then EVERY proper prefix (both readers), EVERY byte position of an "
+                "injected reader fault and writer fault, and EVERY single-byte change of the 25-byte header must yield Err without panic "
+                "(3 of 4 models are small enough for complete enumeration; the others and the shipped model use all prefixes < 64 plus 400 sampled points); "
+                "distinct = distinct model byte strings",
+        "required": ["prefixes_tried", "prefixes_shorter_than_header", "io_fault_points_tried", "header_mutations_tried",
+                     "models_with_tag_models", "models_fully_enumerated", "shipped_model_checked"],
+        "exhaustive": True,
+        "extra": {"exhaustive_scope": "per fully enumerated model: all proper prefixes, all reader/writer fault positions, all 25x255 header byte changes"},
+    }
+
+
+# ------------------------------------------------------------------ C08
+def run_c08(tier, seed, res):
+    E.run_workload(res, "mon", "C08h", sz(tier, 30000, 1200000), tier, seed)
+    return {
+        "rule": "case = random history of 0..8 operations {update_raw ok/failing, update_tokenized, update_partial_annotation, predict with one of "
+                "up to 6 predictors from two models (plain / tags / tags+scores), fill_tags, reset_tags(k), the four filters, writes through "
+                "boundaries_mut / tags_mut} followed by update_raw(x); predict; [fill_tags]; the complete observable state is compared with a "
+                "fresh sentence and with the reference tagger; every step runs under catch_unwind; distinct = distinct (history, final predictor, text)",
+        "required": ["histories_with_tagged_state_before_final_update", "histories_with_other_predictor_before_final",
+                     "histories_with_failed_update_directly_before_final", "final_predictor_with_tags",
+                     "final_predictor_storing_scores", "history_ops"],
+    }
+
+
+# ------------------------------------------------------------------ C15
+def run_c15(tier, seed, res):
+    E.run_workload(res, "mon", "C15", sz(tier, 40000, 1000000), tier, seed)
+    return {
+        "rule": "case = sentence (texts with ZWJ sequences, regional indicators, combining marks, Hangul jamo, CR/LF/CRLF, runs of one type; "
+                "labels incl. unknown; 0..3 tag slots) x 9 filters (six character types, line breaks, grapheme clusters, pattern tagger with "
+                "random rules); after filter: text, types, tag count, every boundary and every tag compared with the reference rule "
+                "(grapheme clusters from unicode-segmentation over the whole string); filter applied twice == once; distinct = distinct sentences",
+        "required": ["sentences_with_multi_char_grapheme_cluster", "sentences_with_cr_or_lf", "sentences_with_unknown_boundary",
+                     "sentences_with_tags", "single_character_sentences",
+                     "filter_changed_something:ConcatGraphemeClustersFilter", "filter_changed_something:SplitLinebreaksFilter",
+                     "filter_changed_something:PatternMatchTagger"] +
+                    ["filter_changed_something:KyteaWsConstFilter(%s)" % t for t in "DRHTKO"],
+    }
+
+
 PROPS = {
     "C01": {"level": "exploration", "run": run_c01},
     "C02": {"level": "exploration", "run": run_c02},
@@ -149,7 +197,10 @@ PROPS = {
     "C04": {"level": "exploration", "run": run_c04},
     "C05": {"level": "exploration", "run": run_c05},
     "C06": {"level": "exploration", "run": run_c06},
+    "C07": {"level": "fault_enumeration", "run": run_c07},
+    "C08": {"level": "exploration", "run": run_c08},
     "C14": {"level": "exploration", "run": run_c14},
+    "C15": {"level": "exploration", "run": run_c15},
 }
 
 
